@@ -42,6 +42,31 @@ Theorem C11_splices : forall W head cmd tail f,
   = Ok (Some (head ++ trim (oracle_out W cmd) ++ tail), [cmd]).
 Proof. exact dollar_loop_splices. Qed.
 
+(** The same for the WHOLE word: the text before the substitution may hold dollars (none directly followed by
+    an open paren), the text after it may go on over further lines.  The splice is the leftmost-match REPLACE of
+    an unanchored pattern whose head group cannot hold a dollar and whose tail group stops at a newline: what lies
+    outside the match is kept -- before ++ output ++ tail ++ post, nothing dropped. *)
+Theorem C11_splices_whole_word : forall W (before cmd tail post : str) f,
+  has_dollar_paren before = false ->
+  cmd <> [] -> ~ In 41 cmd -> ~ In 10 cmd -> ~ In 10 tail -> ~ In 41 tail -> (post = [] \/ exists r, post = 10 :: r) ->
+  (~ In 61 (before ++ [36; 40] ++ cmd ++ [41] ++ tail ++ post) \/ ~ In 39 (before ++ [36; 40] ++ cmd ++ [41] ++ tail ++ post)) ->
+  has_dollar_paren (before ++ trim (oracle_out W cmd) ++ tail ++ post) = false ->
+  dollar_loop (S (S f)) W (before ++ [36; 40] ++ cmd ++ [41] ++ tail ++ post) []
+  = Ok (Some (before ++ trim (oracle_out W cmd) ++ tail ++ post), [cmd]).
+Proof. exact dollar_loop_splices_gen. Qed.
+(** non-vacuity:  US$$(x)<nl>rest  with the runner answering 5 *)
+Example C11_whole_word_example :
+  dollar_loop 2 (world_of [] [([120], Some [53; 10])]) [85; 83; 36; 36; 40; 120; 41; 33; 10; 114] []
+  = Ok (Some [85; 83; 36; 53; 33; 10; 114], [[120]]).
+Proof. vm_compute. reflexivity. Qed.
+
+(** The token loop of the dollar pass is modelled as written (hand-counted index over ALL tokens, write-back by
+    index) and proved equal to the per-token recursion. *)
+Theorem C11_index_buffer : forall fuel W toks log,
+  subst_dollar fuel W toks log
+  = res_map (fun x => (match fst x with Some t => t | None => toks end, snd x)) (dollar_pass fuel W toks log).
+Proof. exact subst_dollar_eq. Qed.
+
 (** ... in the property's words (trailing newlines only) whenever trimming and stripping coincide. *)
 Definition Known_C11 (W : World) (head cmd tail : str) : Prop :=
   match run_capture W cmd with
@@ -126,6 +151,8 @@ Proof. split; [exact word_ok_x | vm_compute; reflexivity]. Qed.
 Print Assumptions C11_refuted.
 Print Assumptions C11_refuted_whitespace.
 Print Assumptions C11_splices.
+Print Assumptions C11_splices_whole_word.
+Print Assumptions C11_index_buffer.
 Print Assumptions C11_partial.
 Print Assumptions C11_unplannable.
 Print Assumptions C11_terminates.
